@@ -128,7 +128,11 @@ def monitor(R, out, log, plan):
     mscale = max(b["m"] for b in B.scene["bodies"])
     # gap tolerance: position error that the fixed-point / Newton criteria allow
     tol_g = C_PEN * max(ftol * dt, ntol) * (1 + float(np.max(np.abs(q))))
-    tol_xi = C_XI * ftol
+    # (the constant assumes the contraction of the solvers' own prox parameter; a user who scales it down by
+    # prox_scaling < 1 slows the iteration accordingly: the same increment criterion then leaves a larger residual)
+    r_user = float(spec["options"].get("prox_scaling", 1.0))
+    ftol_v = ftol / min(1.0, r_user) ** 2  # velocity-level residual the increment criterion can leave behind
+    tol_xi = C_XI * ftol_v
     # all percussion tolerances are relative to the scene's own mass / percussion scale (the unit system is the user's)
     tol_P = 1e-10 * (mscale + Pscale)
     tol_cone = C_CONE * ftol * mscale + 1e-9 * (mscale + Pscale)
@@ -154,7 +158,10 @@ def monitor(R, out, log, plan):
             bad("PN_negative", f"{name}/{type(contacts[i]).__name__}", f"step {k}: P_N[{i}]={P[i]:.3e} < 0")
             return
         open_ = g > tol_g
-        if np.any(P[open_] > tol_P):
+        # position-level schemes iterate on the percussions themselves: an open contact's percussion is zero up to the
+        # fixed-point tolerance (relative to the percussion scale), not up to round-off
+        tol_P_open = max(tol_P, 10 * ftol * (mscale + Pscale)) if pos_level else tol_P
+        if np.any(P[open_] > tol_P_open):
             i = int(np.argmax(np.where(open_, P, 0)))
             bad("PN_open_contact", f"{name}/{type(contacts[i]).__name__}", f"step {k}: contact {i} is open (gap {g[i]:.3e} > {tol_g:.1e}) but P_N={P[i]:.3e}")
             return
@@ -178,9 +185,16 @@ def monitor(R, out, log, plan):
                 worst["xi"] = max(worst["xi"], m / vscale)
                 if m > tol_xi * vscale:
                     i = int(np.argmax(np.where(active, np.abs(xiN), 0)))
+                    # several closed frictional contacts on the body of contact i (wedge): named in the signature
+                    def bodies_of(j):
+                        co = B.scene["contacts"][j]
+                        return {co["body"]} if co["type"] == "s2p" else {co["a"], co["b"]}
+
+                    mates = [j for j in range(len(contacts)) if active[j] and mu[j] > 0 and bodies_of(j) & bodies_of(i)]
+                    wedge = "/several_frictional_contacts_on_one_body" if (len(mates) >= 2 and mu[i] > 0) else ""
                     bad(
                         "signorini_complementarity",
-                        f"{name}/velocity/{type(contacts[i]).__name__}",
+                        f"{name}/velocity/{type(contacts[i]).__name__}{wedge}",
                         f"step {k}: contact {i} carries P_N={P[i]:.3e} but its restituted gap rate g_N_dot+ + e_N g_N_dot- = {xiN[i]:.3e} (e_N={eN[i]:.2f}, bound {tol_xi * vscale:.1e})",
                     )
                     return
@@ -220,7 +234,7 @@ def monitor(R, out, log, plan):
                     return
                 xiF = gF[c.la_FDOF]
                 nx = float(np.linalg.norm(xiF))
-                slip = nx > 1e3 * ftol * (1 + float(np.max(np.abs(u[k]))))
+                slip = nx > 1e3 * ftol_v * (1 + float(np.max(np.abs(u[k]))))
                 if closed_i and slip and lim > 10 * tol_cone:
                     err = float(np.linalg.norm(Pf + lim * xiF / nx))
                     worst["slipdir"] = max(worst["slipdir"], err / lim)
